@@ -18,8 +18,8 @@ from ..common import VERIF, dump
 from ..tlc import MachineryError, run_tlc, workdir
 from . import c08
 
-PARAMS = {"quick": dict(sim=25, nreq=120, seeds=["0", "1", "random"], evict=132),
-          "thorough": dict(sim=200, nreq=900, seeds=["0", "1", "2", "12345", "random"], evict=140)}
+PARAMS = {"quick": dict(sim=25, nreq=90, percat=3, seeds=["0", "1", "2", "3", "random"], evict=132),
+          "thorough": dict(sim=200, nreq=700, percat=12, seeds=["0", "1", "2", "3", "4", "12345", "random", "random"], evict=140)}
 
 CACHE_PROBLEMS = [
     ("y(i) = A(i,j) * x(j)", [("y", "d0"), ("A", "d0s1"), ("x", "d0")]),
@@ -69,6 +69,21 @@ def run(tier, seed):
                      "kinds": sorted(l["kinds"]), "lang": l["lang"]})
     rng.shuffle(reqs)
     reqs = reqs[:P["nreq"]]
+    # plus the catalogue's realistic shapes (co-iterated sums, products of sums, contractions ...) in all-dense,
+    # all-compressed and seeded random formats
+    from ..catalogue import CATALOGUE
+    from ..pipeline import format_choices
+
+    for ci, (group, text) in enumerate(CATALOGUE):
+        asg = exprs.parse(text)
+        for fi, fm in enumerate(format_choices(asg, rng, P["percat"], 40)):
+            if fi >= P["percat"]:
+                break
+            reqs.append({"id": len(reqs) + 1000, "text": text, "formats": [[n, f] for n, f in fm.items()],
+                         "kinds": [["evaluate"], ["compute"], ["assemble", "compute"]][(ci + fi) % 3],
+                         "lang": "c" if (ci + fi) % 2 else "llvm"})
+    for i, rq in enumerate(reqs):
+        rq["id"] = i + 1
     if len(reqs) < 20:
         raise MachineryError("C15: too few requests generated")
     d = workdir("c15")
